@@ -12,7 +12,8 @@ Decided from the syntax trees of hail/python/hail/vds/combiner/{variant_dataset_
       emits closed intervals that cover every base 1..L exactly once
   R5  ... and no interval is longer than the requested size
 R4/R5 evaluate the *extracted* statements of `calc_parts` with our own exact-integer interpreter, exhaustively over
-1 <= L, S <= 80 and on the mitochondrial contigs of GRCh37/GRCh38.
+1 <= L, S <= 80 (200 in the thorough tier), on the mitochondrial contigs of GRCh37/GRCh38 for sizes 100..200, and on a few
+probe points on large real contigs.  Findings are keyed by failure kind (last base uncovered / gap / overlap / too long ...).
 Does not decide: termination of the merge plan, the merge arithmetic itself, what the engine does with the intervals.
 """
 from __future__ import annotations
@@ -355,10 +356,9 @@ def check_run(ctx: Ctx, m: pf.Module, cls: ast.ClassDef) -> None:
         p = g.path_avoiding(g.entry, lambda n: n is s, is_save)
         p2 = None
         for s0 in steps:
-            for succ, _lab in s0.succ:
-                if succ is s or g.path_avoiding(succ, lambda n: n is s, is_save) is not None and not is_save(succ):
-                    if not is_save(succ):
-                        p2 = [s0, succ]
+            q = g.path_avoiding(s0, lambda n: n is s, is_save)
+            if q is not None:
+                p2 = q
         if p is not None:
             ctx.bad('R3', cons, 'a path reaches self.step() without a preceding self.save(): a crash during that step leaves no plan describing the inputs it consumed',
                     m.path, s.lineno, extra=[repr(x) for x in p])
@@ -580,21 +580,23 @@ def _judge(parts: List[Tuple[int, int]], L: int, S: int, inc_start: bool, inc_en
     missing = [x for x in missing if 1 <= x <= L]
     cp = None
     if missing:
-        cp = f'base(s) {missing[:3]}{"..." if len(missing) > 3 else ""} of 1..{L} are in no interval'
+        kind = 'last base uncovered' if missing == [L] else 'gap'
+        cp = (kind, f'base(s) {missing[:3]}{"..." if len(missing) > 3 else ""} of 1..{L} are in no interval')
     elif twice:
-        cp = f'base(s) {twice[:3]} are in more than one interval'
+        cp = ('overlap', f'base(s) {twice[:3]} are in more than one interval')
     elif out_of_range is not None:
-        cp = f'position {out_of_range} lies outside 1..{L}'
-    lp = f'an interval spans {longest} bases' if longest > S else None
+        cp = ('out of range', f'position {out_of_range} lies outside 1..{L}')
+    lp = None
+    if longest > S:
+        lp = ('one base too long' if longest == S + 1 else 'too long', f'an interval spans {longest} bases')
     return cp, lp
 
 
 def check_partitioning(ctx: Ctx, m: pf.Module) -> None:
     mc = pf.load(FC)
     simulate, inc_start, inc_end, calc = _partition_model(ctx, mc)
-    N = 80
-    cov_bad: List[Tuple[int, int, str, list]] = []
-    len_bad: List[Tuple[int, int, str, list]] = []
+    N = 80 if ctx.tier != 'thorough' else 200
+    bad: Dict[Tuple[str, str], List[Tuple[int, int, str, list]]] = {}
     n = 0
     for L in range(1, N + 1):
         for S in range(1, N + 1):
@@ -602,11 +604,11 @@ def check_partitioning(ctx: Ctx, m: pf.Module) -> None:
             cp, lp = _judge(parts, L, S, inc_start, inc_end)
             n += 1
             if cp:
-                cov_bad.append((L, S, cp, parts))
+                bad.setdefault(('R4', cp[0]), []).append((L, S, cp[1], parts))
             if lp:
-                len_bad.append((L, S, lp, parts))
+                bad.setdefault(('R5', lp[0]), []).append((L, S, lp[1], parts))
     ctx.unit('partition_domain_points', n)
-    # real contigs small enough to evaluate: the mitochondrial contigs
+    # real contig lengths: the mitochondrial contigs for a range of sizes, and a few probe points on large contigs
     real: List[Tuple[str, str, int]] = []
     lengths: Dict[Tuple[str, str], int] = {}
     for rg, rel in (('GRCh37', 'hail/hail/resources/reference/grch37.json'), ('GRCh38', 'hail/hail/resources/reference/grch38.json')):
@@ -618,46 +620,42 @@ def check_partitioning(ctx: Ctx, m: pf.Module) -> None:
                     real.append((rg, c['name'], c['length']))
         except (AnalysisError, KeyError, ValueError):
             continue
-    real_cov = real_len = None
-    for rg, name, S in PROBES:
-        L = lengths.get((rg, name))
-        if L is None:
-            continue
+    witness: Dict[Tuple[str, str], str] = {}
+    points = [(rg, name, lengths[(rg, name)], S) for rg, name, S in PROBES if (rg, name) in lengths]
+    points += [(rg, name, L, S) for rg, name, L in real for S in range(100, 201)]
+    for rg, name, L, S in points:
         cp, lp = _judge(simulate(L, S), L, S, inc_start, inc_end)
         n += 1
-        if cp and real_cov is None:
-            real_cov = f'{rg} contig {name} (length {L}) with interval_size={S}: {cp}'
-        if lp and real_len is None:
-            real_len = f'{rg} contig {name} (length {L}) with interval_size={S}: {lp}'
-    for rg, name, L in real:
-        for S in range(100, 201):
-            cp, lp = _judge(simulate(L, S), L, S, inc_start, inc_end)
-            n += 1
-            if cp and real_cov is None:
-                real_cov = f'{rg} contig {name} (length {L}) with interval_size={S}: {cp}'
-            if lp and real_len is None:
-                real_len = f'{rg} contig {name} (length {L}) with interval_size={S}: {lp}'
+        if cp:
+            witness.setdefault(('R4', cp[0]), f'{rg} contig {name} (length {L}) with interval_size={S}: {cp[1]}')
+        if lp:
+            witness.setdefault(('R5', lp[0]), f'{rg} contig {name} (length {L}) with interval_size={S}: {lp[1]}')
+    for k, w in witness.items():
+        bad.setdefault(k, [])
     ctx.extra_cov['partition_points_evaluated'] = n
     cons = f'{FC}::calculate_even_genome_partitioning.calc_parts'
-    if cov_bad:
-        L, S, cp, parts = min(cov_bad, key=lambda t: (t[0] + t[1], t[0]))
-        multi = [t for t in cov_bad if t[0] > 1]
-        ex2 = ''
-        if multi:
-            L2, S2, cp2, parts2 = min(multi, key=lambda t: (t[0] + t[1], t[0]))
-            ex2 = f'; contig_length={L2}, interval_size={S2} gives {parts2}: {cp2}'
-        ctx.bad('R4', cons + '::coverage', f'the intervals do not cover every base exactly once: contig_length={L}, interval_size={S} gives {parts}: {cp}{ex2}'
-                f' ({len(cov_bad)} of {N * N} evaluated (length, size) pairs fail' + (f'; {real_cov}' if real_cov else '') + ')',
-                mc.path, calc.lineno, extra=[(a, b, c) for a, b, c, _ in cov_bad[:20]])
-    else:
-        ctx.ok('R4', cons + '::coverage', {'pairs': N * N, 'closed': [inc_start, inc_end]})
-    if len_bad:
-        L, S, lp, parts = min(len_bad, key=lambda t: (t[0] + t[1], t[0]))
-        ctx.bad('R5', cons + '::length', f'intervals are longer than requested: contig_length={L}, interval_size={S} gives {parts}: {lp} > {S}'
-                f' ({len(len_bad)} of {N * N} evaluated pairs fail' + (f'; {real_len}' if real_len else '') + ')',
-                mc.path, calc.lineno, extra=[(a, b, c) for a, b, c, _ in len_bad[:20]])
-    else:
-        ctx.ok('R5', cons + '::length', {'pairs': N * N})
+    for rule, what, text in (('R4', 'coverage', 'the intervals do not cover every base of the contig exactly once'),
+                             ('R5', 'length', 'intervals are longer than the requested interval_size')):
+        kinds = sorted(k for (r, k) in bad if r == rule)
+        if not kinds:
+            ctx.ok(rule, f'{cons}::{what}', {'pairs': N * N, 'closed': [inc_start, inc_end]})
+        for kind in kinds:
+            lst = bad[(rule, kind)]
+            msg = f'{text} ({kind}): '
+            if lst:
+                L, S, pr, parts = min(lst, key=lambda t: (t[0] + t[1], t[0]))
+                msg += f'contig_length={L}, interval_size={S} gives {parts}: {pr}'
+                multi = [t for t in lst if t[0] > 2 and (t[0], t[1]) != (L, S)]
+                if multi and L <= 2:
+                    L2, S2, pr2, parts2 = min(multi, key=lambda t: (t[0] + t[1], t[0]))
+                    msg += f'; contig_length={L2}, interval_size={S2} gives {parts2}: {pr2}'
+                msg += f' ({len(lst)} of {N * N} evaluated (length, size) pairs fail'
+            else:
+                msg += '(no pair of the small domain fails'
+            if (rule, kind) in witness:
+                msg += f'; {witness[(rule, kind)]}'
+            msg += ')'
+            ctx.bad(rule, f'{cons}::{what}::{kind}', msg, mc.path, calc.lineno, extra=[(a, b, c) for a, b, c, _ in lst[:20]])
     # every call site passes a reference genome and a size; the default sizes are positive integers
     cls = m.cls(CLS)
     for nm in ('default_genome_interval_size', 'default_exome_interval_size'):
